@@ -28,8 +28,8 @@ func zzAdvertisedVersions(h *zzRefHello, specMin uint16, specSV []uint16) []uint
 	return out
 }
 
-//verif:harness C13 version_only_if_advertised unwind=4000 instrs=400000000 paths=40000
-//verif:stub (*math/rand.Rand).Shuffle zzStubShuffle
+//verif:harness C13 version_only_if_advertised unwind=4000 instrs=400000000 paths=200000 wall=3000
+//verif:stub (*math/rand.Rand).Shuffle zzStubShuffleIdentity
 //verif:stub (*utls.Conn).readHandshake zzStubReadHandshake
 //verif:stub (*utls.Conn).sendAlert zzStubSendAlert
 //verif:stub (*utls.clientHandshakeStateTLS13).handshake zzStubHandshake13
